@@ -78,7 +78,8 @@ func (r *Run) opOf(ev int) int {
 // shrink removes ops while `bad` still holds (delta debugging, one op at a time from the end, then pairs).
 func shrink(c *Case, bad func(*Case) bool) *Case {
 	cur := c
-	for changed := true; changed; {
+	budget := 120 // evaluations per shrink; the process-wide budget bounds the total time spent shrinking
+	for changed := true; changed && budget > 0 && shrinkBudget > 0; {
 		changed = false
 		for chunk := len(cur.Script.Ops) / 2; chunk >= 1; chunk /= 2 {
 			for i := len(cur.Script.Ops) - chunk; i >= 0; i -= chunk {
@@ -89,6 +90,11 @@ func shrink(c *Case, bad func(*Case) bool) *Case {
 				xs := *cur.Script
 				xs.Ops = append(append([]Op{}, cur.Script.Ops[:i]...), cur.Script.Ops[i+chunk:]...)
 				x.Script = &xs
+				budget--
+				shrinkBudget--
+				if budget <= 0 || shrinkBudget <= 0 {
+					return cur
+				}
 				if bad(&x) {
 					cur = &x
 					changed = true
@@ -240,6 +246,8 @@ func reportCase(ctx *hx.Ctx, c *Case) {
 		reported["correspondence:"+os.disagree] = true
 	}
 }
+
+var shrinkBudget = 600
 
 // classes already reported in this process (one shrink + report per class is enough)
 var reported = map[string]bool{}
